@@ -13,6 +13,7 @@ import (
 	"pgregory.net/rapid"
 
 	"verif/harness/internal/ev"
+	"verif/harness/internal/gen"
 	"verif/harness/internal/mptkit"
 )
 
@@ -133,8 +134,8 @@ func runHistory(rt *rapid.T, kind string, fixed bool) {
 	defer m.store.Close()
 	m.version = int64(rapid.IntRange(0, 3).Draw(rt, "v0"))
 	m.mpt = mptkit.NewTrie(m.store.DB, m.version, nil)
-	steps := rapid.IntRange(6, 40).Draw(rt, "steps")
-	maxBytes := rapid.SampledFrom([]int{2, 3, 4, 8}).Draw(rt, "maxBytes")
+	steps := gen.Uniform(rt, 6, 40, "steps")
+	maxBytes := gen.Pick(rt, []int{2, 3, 4, 8}, "maxBytes")
 	var tr traits
 	genPath := func(label string) string {
 		if fixed {
@@ -143,7 +144,7 @@ func runHistory(rt *rapid.T, kind string, fixed bool) {
 		return mptkit.GenPath(rt, m.used, maxBytes, label)
 	}
 	for i := 0; i < steps; i++ {
-		k := rapid.IntRange(0, 99).Draw(rt, "op")
+		k := gen.Pct(rt, "op")
 		before := append([]byte(nil), m.mpt.GetRoot()...)
 		switch {
 		case k < 45: // insert / overwrite
@@ -274,8 +275,8 @@ func (m *machine) afterDelete(what, p string, present bool, err error, before []
 func TestMapSemantics(t *testing.T) {
 	ev.Rapid(t, 2500, 30000)
 	rapid.Check(t, func(rt *rapid.T) {
-		kind := rapid.SampledFrom(mptkit.StoreKinds).Draw(rt, "store")
-		fixed := rapid.IntRange(0, 9).Draw(rt, "fixed") == 0
+		kind := gen.Pick(rt, mptkit.StoreKinds, "store")
+		fixed := gen.Chance(rt, 10, "fixed")
 		runHistory(rt, kind, fixed)
 	})
 }
